@@ -1,0 +1,36 @@
+//go:build verif
+
+package otto
+
+import "github.com/robertkrimen/otto/token"
+
+// Verification hooks (build tag verif): exported wrappers around internal
+// conversion and operator functions so a harness can drive them directly.
+// They add code only and change no behaviour.
+
+func VerifToInt32(v Value) int32          { return toInt32(v) }
+func VerifToUint32(v Value) uint32        { return toUint32(v) }
+func VerifToUint16(v Value) uint16        { return toUint16(v) }
+func VerifToIntegerFloat(v Value) float64 { return toIntegerFloat(v) }
+func VerifFloat64(v Value) float64        { return v.float64() }
+func VerifBool(v Value) bool              { return v.bool() }
+func VerifSameValue(x, y Value) bool      { return sameValue(x, y) }
+func VerifStrictEquals(x, y Value) bool   { return strictEqualityComparison(x, y) }
+
+var verifTokens = map[string]token.Token{
+	"lt": token.LESS, "gt": token.GREATER, "le": token.LESS_OR_EQUAL, "ge": token.GREATER_OR_EQUAL,
+	"eq": token.EQUAL, "ne": token.NOT_EQUAL, "seq": token.STRICT_EQUAL, "sne": token.STRICT_NOT_EQUAL,
+	"add": token.PLUS, "sub": token.MINUS, "mul": token.MULTIPLY, "div": token.SLASH, "rem": token.REMAINDER,
+	"band": token.AND, "bor": token.OR, "bxor": token.EXCLUSIVE_OR,
+	"shl": token.SHIFT_LEFT, "shr": token.SHIFT_RIGHT, "ushr": token.UNSIGNED_SHIFT_RIGHT,
+}
+
+// VerifCompare evaluates a comparison operator the way the evaluator does.
+func VerifCompare(vm *Otto, op string, x, y Value) bool {
+	return vm.runtime.calculateComparison(verifTokens[op], x, y)
+}
+
+// VerifBinary evaluates a binary operator the way the evaluator does.
+func VerifBinary(vm *Otto, op string, x, y Value) Value {
+	return vm.runtime.calculateBinaryExpression(verifTokens[op], x, y)
+}
